@@ -79,7 +79,23 @@ func TestC18Contact(t *testing.T) {
 		first[l.port] = len(l.hits)
 		l.mu.Unlock()
 	}
+	// the client retries a dropped connection after 2 s: wait until every listed address was contacted twice (at least as
+	// long as two retry intervals, at most 25 s on a loaded machine)
+	enough := func() bool {
+		for _, l := range append(append([]*c18Listener{}, ls[:n]...), def) {
+			l.mu.Lock()
+			k := len(l.hits)
+			l.mu.Unlock()
+			if k < 2 {
+				return false
+			}
+		}
+		return true
+	}
 	time.Sleep(3600 * time.Millisecond)
+	for dl := time.Now().Add(21 * time.Second); !enough() && time.Now().Before(dl); {
+		time.Sleep(100 * time.Millisecond)
+	}
 	cancel()
 	select {
 	case <-done:
